@@ -70,6 +70,28 @@ pub fn eval_name(psl: &Psl, name: &str, compare: bool) -> (Vec<Finding>, &'stati
     }
     let mut class = if e1.is_ok() { "registrable" } else { "suffix-or-rejected" };
     let mut nontrivial = false;
+    // Names with non-ASCII labels to the LEFT of everything a rule can match: the lookup is
+    // byte-wise on a punycode table, so such labels can only play the role of "some label"; the
+    // label counts of suffix and eTLD+1 must then equal the reference's on the A-label form.
+    if !compare && Psl::well_formed(name) && !name.is_ascii() {
+        let labels: Vec<&str> = name.split('.').collect();
+        if let Some(ascii) = punycode::to_ascii(name) {
+            let al: Vec<&str> = ascii.split('.').collect();
+            let k = psl.suffix_labels(&al);
+            let tail_ascii = labels.iter().rev().take(k + 1).all(|l| l.bytes().all(|b| b.is_ascii_lowercase() || b.is_ascii_digit() || b == b'-'));
+            if tail_ascii && al.len() == labels.len() {
+                nontrivial = k > 1;
+                if label_count(&ps) != k {
+                    bad("public-suffix-differs", format!("public_suffix({name:?}) = {ps:?}, the PSL algorithm gives a suffix of {k} labels (the non-ASCII labels are left of every matching rule)"));
+                }
+                let want_e1 = labels.len() > k;
+                if e1.is_ok() != want_e1 || e1.as_ref().is_ok_and(|v| label_count(v) != k + 1) {
+                    bad("etld1-differs", format!("effective_tld_plus_one({name:?}) = {e1:?}, expected {} labels", k + 1));
+                }
+                class = "unicode-left-labels";
+            }
+        }
+    }
     if compare {
         let labels: Vec<&str> = name.split('.').collect();
         let k = psl.suffix_labels(&labels);
@@ -149,17 +171,26 @@ pub fn run(ctx: &Ctx) -> Result<Run, String> {
     let mut names: Vec<String> = psl.rules.iter().flat_map(|r| names_for_rule(r)).collect();
     names.sort();
     names.dedup();
+    // the same names with Unicode labels in front (compared on label counts, see eval_name)
+    let unicode: Vec<String> = names.iter().step_by(2).flat_map(|n| [format!("bücher.{n}"), format!("食狮.w.{n}")]).collect();
+    let ust = par::sweep_cases(&unicode, ctx.threads, |n, st| {
+        let (fs, class, nt) = eval_name(&psl, n, false);
+        st.case(n, nt, class);
+        st.findings_from(fs);
+    });
     let mut stats = par::sweep_cases(&names, ctx.threads, |n, st| {
         let (fs, class, nt) = eval_name(&psl, n, true);
         st.case(n, nt, class);
         st.findings_from(fs);
     });
+    stats.merge(ust);
     stats.count("rule_derived_names", names.len() as u64);
+    stats.count("rule_derived_names_with_unicode_left_labels", unicode.len() as u64);
     for n in names.iter().step_by(names.len() / 4 + 1) {
         stats.samples.push(json!({"name": n, "reference_suffix": psl.public_suffix(n), "reference_etld1": psl.etld_plus_one(n)}));
     }
     // part 2: all strings over the alphabet up to length L
-    let maxlen = ctx.tier.pick(6, 7);
+    let maxlen = ctx.tier.pick(6, 9);
     for len in 0..=maxlen {
         let n = ALPHABET.len().pow(len as u32);
         let st = par::sweep(n, ctx.threads, 4096, |i, st| {
@@ -196,7 +227,7 @@ pub fn run(ctx: &Ctx) -> Result<Run, String> {
     let rules = psl.rules.len();
     let mut run = Run::from_stats(
         "exploration",
-        "every rule of public_suffix_list.dat (A-label form; wildcards instantiated with two labels and their base, exceptions without '!') as-is, with its leading label removed/replaced and with 1..3 labels prepended, compared on public_suffix / effective_tld_plus_one / is_effective_tld with a textbook PSL matcher over the .dat file; plus all strings over {c,k,o,m,u,w,.,A,é} up to the stated length and long/odd names (structural checks always, equality for canonical lower-case ASCII names). Non-trivial = a canonical name whose prevailing rule is an explicit rule of the list",
+        "every rule of public_suffix_list.dat (A-label form; wildcards instantiated with two labels and their base, exceptions without '!') as-is, with its leading label removed/replaced and with 1..3 labels prepended, compared on public_suffix / effective_tld_plus_one / is_effective_tld with a textbook PSL matcher over the .dat file; half of those names again with Unicode labels prepended (label counts must agree); plus all strings over {c,k,o,m,u,w,.,A,é} up to the stated length and long/odd names (structural checks always, equality for canonical lower-case ASCII names). Non-trivial = a canonical name whose prevailing rule is an explicit rule of the list",
         true,
         stats,
     );
